@@ -341,3 +341,9 @@ mod tests {
         assert_eq!({ request.len }, { unmap_request.len });
     }
 }
+
+// Verification harnesses (Kani); the sources live outside this repository.
+#[cfg(feature = "verif")]
+mod verif {
+    include!(concat!(env!("VHOST_VERIF_DIR"), "/harness/vu_backend_req.rs"));
+}
